@@ -320,6 +320,22 @@ def c10_entry(expr="r.n > 6 and r.s"):
     return {"violates": got != want or end != "stop", "detail": f"reading by path with the text selector {expr!r} yields {got} (ended {end}), testing each record afterwards keeps {want}"}
 
 
+def c10_contains(eng="Selector", expr="r.s"):
+    from flow.record import RecordDescriptor, selector
+
+    A = RecordDescriptor("c10/a", [("varint", "n"), ("string", "s")])
+    recs = [A(n=5, s="a"), A(n=None, s="b"), A(n=7, s=""), A(n=9, s="d")]
+    s1, s2 = getattr(selector, eng)(expr), getattr(selector, eng)(expr)
+    def outcome(f):
+        try:
+            return bool(f())
+        except Exception as e:
+            return f"raise {type(e).__name__}"
+
+    a, b = [outcome(lambda: r in s1) for r in recs], [outcome(lambda: s2.match(r)) for r in recs]
+    return {"violates": a != b, "detail": f"`record in selector` gives {a}, selector.match(record) gives {b}"}
+
+
 def c10_selector_raises(kind="stream"):
     """a selector that cannot be evaluated on the second record: the reader yields what was kept before and raises, like testing afterwards does"""
     from flow.record import RecordDescriptor, RecordReader, RecordWriter
@@ -354,4 +370,4 @@ def c10_selector_raises(kind="stream"):
             end = f"raise {type(e).__name__}"
     return {"violates": got != ["a"] or end != "raise TypeError", "detail": f"{kind}: the reader yielded {got} and ended {end}; testing afterwards keeps ['a'] and raises TypeError at the second record"}
 
-CALLS = {"c10_selector_raises": c10_selector_raises, "c10_entry": c10_entry, "c10_history_grouped": c10_history_grouped, "c10_frame_list": c10_frame_list, "c10_history_value": c10_history_value, "c10_equiv": c10_equiv, "c10_sweep": c10_sweep, "c10_reader": c10_reader, "c10_history": c10_history, "c10_frame": c10_frame, "c10_make": c10_make, "c10_model_conformance": c10_model_conformance}
+CALLS = {"c10_contains": c10_contains, "c10_selector_raises": c10_selector_raises, "c10_entry": c10_entry, "c10_history_grouped": c10_history_grouped, "c10_frame_list": c10_frame_list, "c10_history_value": c10_history_value, "c10_equiv": c10_equiv, "c10_sweep": c10_sweep, "c10_reader": c10_reader, "c10_history": c10_history, "c10_frame": c10_frame, "c10_make": c10_make, "c10_model_conformance": c10_model_conformance}
